@@ -20,11 +20,12 @@ EXPLANATION = (
     "_pop_line_before_zid and _add_or_update_modify_date are verified against the specification of the stamped first line "
     "(YYMMDD inserted in front of the ZID, or replacing the date that is there; prefix kept) for every first line of a bounded "
     "number of fully symbolic words. "
-    "The frame over the file (every other line byte-identical), index/file agreement and quiescence of an immediately "
+    "_update_zo_file - the write-back both handlers use - is verified over the file-system model: the page becomes exactly the old lines with the first line of every note to update passed through the line function (every other line byte-identical), only the page and the hash file change, and only the page's own hash entry is refreshed (pages <= 3 / 5 lines, <= 2 notes, lines / ZIDs / line numbers fully symbolic, line function and value getter uninterpreted; _get_file_hash_path / _write_file_hash_to_disk / _hash_file assumed). "
+    "Index/file agreement along whole histories and quiescence of an immediately "
     "following reindex are checked on generated and directed edit histories over frozen calendar days through the real "
     "ReindexDBCommand (bounded)."
 )
-ASSUMPTIONS = ["A-ASCII", "the calendar day is constant during one command (freezegun in the bounded tier)"]
+ASSUMPTIONS = ["A-FS", "the hash file exists when _update_zo_file runs", "A-ASCII", "the calendar day is constant during one command (freezegun in the bounded tier)"]
 TRUSTED = ["SQLAlchemy/SQLite, antlr4 (end-to-end part runs the real stack)", "z3 5.1 / cvc5 1.0.3", "pyvc symbolic interpreter (engine/)"]
 FIRST = re.compile(r"^(-|[ox~<>])( P[0-9])? ")
 
